@@ -109,7 +109,47 @@ scan_region(const void * p, size_t n)
 				}
 		}
 }
-static void free_hook(void * p, size_t n) { scan_region(p, n); }
+/* blocks into which the library copied a string containing the current secret (key files): when such a block is released,
+ * no byte of the copy may be left - a wipe that stops short of the end leaves the tail of the secret behind */
+static struct { void * p; size_t n; } secret_blocks[16];
+static int nsecret_blocks;
+static const char * cur_secret; static size_t cur_secret_len;
+static int
+contains(const void * hay, size_t n, const void * needle, size_t m)
+{
+	size_t i;
+
+	for (i = 0; m <= n && i <= n - m; i++)
+		if (memcmp((const uint8_t *)hay + i, needle, m) == 0)
+			return (1);
+	return (0);
+}
+static void
+strdup_hook(void * p, size_t n)
+{
+	if (cur_secret != NULL && cur_secret_len > 0 && n >= cur_secret_len && nsecret_blocks < 16 &&
+	    contains(p, n, cur_secret, cur_secret_len)) {
+		secret_blocks[nsecret_blocks].p = p; secret_blocks[nsecret_blocks].n = n; nsecret_blocks++;
+	}
+}
+static void
+free_hook(void * p, size_t n)
+{
+	int i;
+	size_t j;
+
+	scan_region(p, n);
+	for (i = 0; i < nsecret_blocks; i++)
+		if (secret_blocks[i].p == p) {
+			for (j = 0; j < n; j++)
+				if (((uint8_t *)p)[j] != 0) {
+					tainted_frees++;
+					snprintf(tainted_what, sizeof(tainted_what), "copy of the secret key not wiped completely (%zu of %zu bytes left, from offset %zu)", n - j, n, j);
+					break;
+				}
+			secret_blocks[i].p = NULL;
+		}
+}
 
 /* OpenSSL allocations (bignums): tracked so that their release can be scanned too */
 struct ossl_hdr { size_t n; size_t pad; };
@@ -530,9 +570,11 @@ do_keyfile(char * l)
 	len = unhex(hex, msg, sizeof(msg));
 	msg[len] = 0;
 	nsecrets = 0; tainted_frees = 0;
+	cur_secret = NULL; nsecret_blocks = 0;
 	if ((p = strstr((char *)msg, "ACCESS_KEY_SECRET=")) != NULL) {
 		size_t n = strcspn(p + 18, "\r\n");
 		secret_add(p + 18, n, "secret key");
+		cur_secret = p + 18; cur_secret_len = n;
 	}
 	if ((fd = mkstemp(fname)) < 0) return;
 	if (len && write(fd, msg, len) != (ssize_t)len) { close(fd); unlink(fname); return; }
@@ -542,6 +584,7 @@ do_keyfile(char * l)
 	vt_begin("keyfile"); vt_str("in", hex); vt_int("rc", rc); vt_int("nsecrets", nsecrets);
 	vt_int("tainted", tainted_frees); if (tainted_frees) vt_str("what", tainted_what); vt_end();
 	nsecrets = 0;
+	cur_secret = NULL; nsecret_blocks = 0;		/* (on success the strings are the caller's) */
 	if (rc == 0) { free(id); free(secret); }
 }
 
@@ -678,6 +721,7 @@ main(int argc, char ** argv)
 	vt_open(argv[2]);
 	self_trace = argv[2];
 	aw_free_hook = free_hook;
+	aw_strdup_hook = strdup_hook;
 	aw_enable(1);
 	while (fgets(line, sizeof(line), f) != NULL) {
 		if (strncmp(line, "prog", 4) == 0) { vt_reset(); continue; }
